@@ -95,6 +95,7 @@ def h16_eager(S, pre_len=3):
     action = CALLS[S.pick("eager", len(CALLS))]
     guarded = S.flag("actor_catches_Exception_around_the_response")
     # the whole _Processor.process() around the actor, for a one-off or a periodic job: nothing else touches the broker afterwards
+    store_fails = S.flag("result_store_fails")            # the failure text looks like JSON (braces)
     via_process = S.flag("through_the_processor")
     periodic = S.flag("periodic_job") if via_process else False
     S.note("script", pre + [action])
@@ -109,6 +110,8 @@ def h16_eager(S, pre_len=3):
 
         async def store(id_, payload):
             order.append(("STORE", payload.success, payload.data, payload.exception))
+            if store_fails:
+                raise ConnectionError('result storage answered {"error": "down", "retry": {"after": 5}}')
             return await orig_store(id_, payload)
 
         w.rb.store_bucket = store
@@ -127,7 +130,7 @@ def h16_eager(S, pre_len=3):
                 elif p == "raising_callback":
                     async def bad(idx=idx):
                         order.append(("cb", idx))
-                        raise RuntimeError("callback failed")
+                        raise RuntimeError("callback {0} failed: {'code': 7}")
                     m.add_callback(bad)
                 elif p == "set_result":
                     m.set_result({"v": idx})
